@@ -267,9 +267,9 @@ MotionCh(vs, m, cnt0, r, o) ==     \* <<ok, vs', r, o>> for the character motion
            IN <<TRUE, vs, S(cnt, r), 0>>
       [] m.k = "0" -> <<TRUE, vs, r, 0>>
       [] m.k = "^" -> <<TRUE, vs, r, Indents(l)>>
-      (* N$: the end of the line N - 1 below; fails when there is no such line *)
-      [] m.k = "$" -> IF cnt > 1 /\ r + cnt - 1 >= NR(vs) THEN <<FALSE, vs, r, o>>
-                      ELSE <<TRUE, vs, r + cnt - 1, Eol(FL(vs, r + cnt - 1))>>
+      (* N$: the end of the line N - 1 below, as far down as there are lines (like j and +) *)
+      [] m.k = "$" -> LET r2 == IF cnt > 1 /\ NR(vs) > 0 THEN Min2(r + cnt - 1, NR(vs) - 1) ELSE r
+                      IN <<TRUE, vs, r2, Eol(FL(vs, r2))>>
       [] m.k = "|" -> <<TRUE, [vs EXCEPT !.pcol = cnt - 1], r, Col2Off(l, cnt - 1)>>
       [] m.k = " " -> LET a == Repeat(vs, LAMBDA v, rr, oo : LET x == LnNext(v, 1, rr, oo) IN <<~x[1], x[2], x[3]>>, cnt, r, o) IN <<TRUE, vs, a[1], a[2]>>
       [] m.k = "^H" -> LET a == Repeat(vs, LAMBDA v, rr, oo : LET x == LnNext(v, -1, rr, oo) IN <<~x[1], x[2], x[3]>>, cnt, r, o) IN <<TRUE, vs, a[1], a[2]>>
